@@ -950,9 +950,11 @@ func (h *bhist) opLateActivation(second bool) {
 		}
 	}
 	h.observe(how) // bytes to sign of every open batch = checkpoint under the ACTIVE compass id; model: nothing happened
+	oracleOnly := false
 	if h.viol {
-		h.dead = true
-		return
+		// the history ends here for the model; the three confirmations are still sent and judged directly: whatever is accepted
+		// must verify against the checkpoint for the compass the chain IS bound to (evm chain info)
+		h.dead, oracleOnly = true, true
 	}
 	// confirmations over the three candidate byte strings of an open batch of that chain
 	for _, n := range h.nonces {
@@ -1001,6 +1003,13 @@ func (h *bhist) opLateActivation(second bool) {
 			c := confirmClass(err)
 			if c == 50 {
 				h.t.Fatalf("ConfirmBatch: %v", err)
+			}
+			if oracleOnly {
+				if err == nil && hex.EncodeToString(cand.cp) != hex.EncodeToString(ver.cp) && violationBudget(h.run, "C06:confirmation-accepted-for-a-compass-the-chain-is-not-bound-to") {
+					h.replay = append(h.replay, map[string]any{"op": "confirm", "validator": v, "nonce": n, "signed": cand.what, "checkpoint": hex.EncodeToString(cand.cp), "signature": sig, "outcome": 0})
+					h.run.Violate("C06:confirmation-accepted-for-a-compass-the-chain-is-not-bound-to", fmt.Sprintf("after %s: ConfirmBatch accepted and stored a confirmation of validator #%d for batch %d signed over the %s (%x), which is not the checkpoint for the compass the chain is bound to (%q, %x)", how, v, n, cand.what, cand.cp, tid, ver.cp), map[string]any{"part": "batch", "history": h.replay})
+				}
+				continue
 			}
 			if err == nil {
 				h.regAt[fmt.Sprintf("%d/%d", n, v)] = reg
